@@ -38,7 +38,7 @@ variable {V : Type}
 
 /-- Every call receives at most one reply, whatever happens later in the history (also for the
 code before repair C10-01: no hypothesis on `env`). -/
-theorem at_most_one_reply (env : Env V) (ex : Exports) (hwf : NamedIfaces ex) (ops : List (Op V))
+theorem at_most_one_reply (env : Env V) (ex : Exports) (ops : List (Op V)) (hwf : HistoryNamed ex ops)
     (k : Nat) :
     (replies (eventsOf k (run env ex ops).2)).length ≤ 1 := by
   rw [eventsOf_run]
@@ -47,29 +47,31 @@ theorem at_most_one_reply (env : Env V) (ex : Exports) (hwf : NamedIfaces ex) (o
   | some op =>
     cases op with
     | resolve j r => rw [callEvents_not_call _ _ _ _ (by simp [hk])]; simp [replies]
+    | exportObj pa o => rw [callEvents_not_call _ _ _ _ (by simp [hk])]; simp [replies]
+    | unexportObj pa => rw [callEvents_not_call _ _ _ _ (by simp [hk])]; simp [replies]
     | call c b =>
-      rw [replies_callEvents env ex hwf ops k c b hk]
-      rcases immediate_or_later env ops k c b (verdict ex c) with h | h
+      rw [replies_callEvents env ex ops k (hwf k) c b hk]
+      rcases immediate_or_later env ops k c b (verdict (exportsAt ex ops k) c) with h | h
       · rw [h]; simpa [replies] using (callReplies_replyish env k c b _).replies_le
       · rw [h]; simpa [replies] using (laterEvents_replyish env ops k c b _).replies_le
 
 /-- A call that expects a reply receives exactly one - unless its implementation returned a
 Deferred that never fires in the history, in which case it has received none (yet).
 (`TextTotal env`: the repaired `send_error`.) -/
-theorem exactly_one_if_expected (env : Env V) (ht : TextTotal env) (ex : Exports) (hwf : NamedIfaces ex)
-    (ops : List (Op V)) (k : Nat) (c : Call V) (b : Nat → Outcome V)
+theorem exactly_one_if_expected (env : Env V) (ht : TextTotal env) (ex : Exports) (ops : List (Op V))
+    (hwf : HistoryNamed ex ops) (k : Nat) (c : Call V) (b : Nat → Outcome V)
     (hk : ops[k]? = some (.call c b)) (he : c.expectReply = true) :
-    ((∃ f m, verdict ex c = .run f m ∧ resultOf ops k (b f.id) = none) →
+    ((∃ f m, verdict (exportsAt ex ops k) c = .run f m ∧ resultOf ops k (b f.id) = none) →
         replies (eventsOf k (run env ex ops).2) = []) ∧
-    ((¬ ∃ f m, verdict ex c = .run f m ∧ resultOf ops k (b f.id) = none) →
+    ((¬ ∃ f m, verdict (exportsAt ex ops k) c = .run f m ∧ resultOf ops k (b f.id) = none) →
         (replies (eventsOf k (run env ex ops).2)).length = 1) := by
   rw [eventsOf_run]
   constructor
   · rintro ⟨f, m, hv, hr⟩
-    rw [replies_run env ex hwf ops k c b hk f m hv he, hr]
+    rw [replies_run env ex ops k (hwf k) c b hk f m hv he, hr]
   · intro hno
-    rw [replies_callEvents env ex hwf ops k c b hk]
-    cases hp : callPending k c b (verdict ex c) with
+    rw [replies_callEvents env ex ops k (hwf k) c b hk]
+    cases hp : callPending k c b (verdict (exportsAt ex ops k) c) with
     | none =>
       have h1 := callReplies_one env ht k c b _ he hp
       simp [laterEvents, hp, replies]
@@ -87,15 +89,15 @@ theorem exactly_one_if_expected (env : Env V) (ht : TextTotal env) (ex : Exports
 
 /-- A call flagged as expecting no reply that is dispatched to its implementation (user code was
 invoked for it) receives no reply, now or when a returned Deferred fires. -/
-theorem none_if_no_reply_and_dispatched (env : Env V) (ex : Exports) (hwf : NamedIfaces ex)
-    (ops : List (Op V)) (k : Nat) (c : Call V) (b : Nat → Outcome V)
+theorem none_if_no_reply_and_dispatched (env : Env V) (ex : Exports) (ops : List (Op V))
+    (hwf : HistoryNamed ex ops) (k : Nat) (c : Call V) (b : Nat → Outcome V)
     (hk : ops[k]? = some (.call c b)) (he : c.expectReply = false)
     (hd : invocations (eventsOf k (run env ex ops).2) ≠ []) :
     replies (eventsOf k (run env ex ops).2) = [] := by
   rw [eventsOf_run] at hd ⊢
-  rw [invocations_callEvents env ex hwf ops k c b hk] at hd
-  rw [replies_callEvents env ex hwf ops k c b hk]
-  cases hv : verdict ex c with
+  rw [invocations_callEvents env ex ops k (hwf k) c b hk] at hd
+  rw [replies_callEvents env ex ops k (hwf k) c b hk]
+  cases hv : verdict (exportsAt ex ops k) c with
   | run f m =>
     obtain ⟨h1, h2⟩ := callReplies_noreply_run env k c b f m he
     simp [h1, laterEvents, h2, replies]
@@ -109,10 +111,10 @@ theorem none_if_no_reply_and_dispatched (env : Env V) (ex : Exports) (hwf : Name
 
 /-- Every reply to a call carries the call's serial as `reply_serial` and the call's sender as
 destination - including replies sent later when a Deferred fires. -/
-theorem reply_addressing (env : Env V) (ex : Exports) (hwf : NamedIfaces ex) (ops : List (Op V))
+theorem reply_addressing (env : Env V) (ex : Exports) (ops : List (Op V)) (hwf : HistoryNamed ex ops)
     (k : Nat) (c : Call V) (b : Nat → Outcome V) (hk : ops[k]? = some (.call c b)) :
     ∀ m ∈ replies (eventsOf k (run env ex ops).2), AddressedTo c m := by
-  rw [eventsOf_run, replies_callEvents env ex hwf ops k c b hk]
+  rw [eventsOf_run, replies_callEvents env ex ops k (hwf k) c b hk]
   intro m hm
   rw [List.mem_append] at hm
   rcases hm with hm | hm
@@ -121,24 +123,37 @@ theorem reply_addressing (env : Env V) (ex : Exports) (hwf : NamedIfaces ex) (op
 
 /-! ## 3. Who runs -/
 
-/-- The invocations of user code for a call are exactly: the bound implementation, once, with the
+/-- THE STATEMENT'S "IF AND ONLY IF", MODULO "AN IMPLEMENTATION IS BOUND".  Full statement
+(properties.jsonl): "The implementation bound to the addressed object path, interface and member
+runs exactly once with the decoded arguments (and the caller's unique name when it asks for it)
+if and only if that path is exported, the member exists on that interface and the argument
+signature matches; otherwise the reply is UnknownObject, UnknownMethod or InvalidArgs and no
+user code runs."  `Runnable` is those three conditions (path exported when the call arrives,
+member on the addressed / first matching interface, signatures equal) PLUS two the text leaves
+implicit: the call is not one the handler answers itself (anchor: built-in Peer /
+Introspectable / ObjectManager handling), and something IS bound (`bound ... = some f`).  The
+remaining case - declared, nothing bound - is `unbound_reply` below: no user code, one
+NotImplementedError error, none of the three named errors.  "Asks for it" is
+`asks_for_caller_iff`.
+
+The invocations of user code for a call are exactly: the bound implementation, once, with the
 decoded arguments and the sender iff it asks for it, when the call is `Runnable` (path exported,
 member on the addressed or first matching interface, signatures equal, something bound; not a
 call the handler answers itself); nothing otherwise.  No later operation adds an invocation. -/
-theorem runs_iff (env : Env V) (ex : Exports) (hwf : NamedIfaces ex) (ops : List (Op V))
+theorem runs_iff (env : Env V) (ex : Exports) (ops : List (Op V)) (hwf : HistoryNamed ex ops)
     (k : Nat) (c : Call V) (b : Nat → Outcome V) (hk : ops[k]? = some (.call c b)) :
-    (∀ f m, Runnable ex c f m →
+    (∀ f m, Runnable (exportsAt ex ops k) c f m →
         invocations (eventsOf k (run env ex ops).2) = [expectedInvocation c f]) ∧
-    ((¬ ∃ f m, Runnable ex c f m) → invocations (eventsOf k (run env ex ops).2) = []) ∧
-    (invocations (eventsOf k (run env ex ops).2) ≠ [] ↔ ∃ f m, Runnable ex c f m) := by
-  rw [eventsOf_run, invocations_callEvents env ex hwf ops k c b hk]
+    ((¬ ∃ f m, Runnable (exportsAt ex ops k) c f m) → invocations (eventsOf k (run env ex ops).2) = []) ∧
+    (invocations (eventsOf k (run env ex ops).2) ≠ [] ↔ ∃ f m, Runnable (exportsAt ex ops k) c f m) := by
+  rw [eventsOf_run, invocations_callEvents env ex ops k (hwf k) c b hk]
   refine ⟨?_, ?_, ?_⟩
   · intro f m hr
-    rw [(verdict_run_iff ex c f m).mpr hr]
+    rw [(verdict_run_iff _ c f m).mpr hr]
     rfl
   · intro hno
-    cases hv : verdict ex c with
-    | run f m => exact absurd ⟨f, m, (verdict_run_iff ex c f m).mp hv⟩ hno
+    cases hv : verdict (exportsAt ex ops k) c with
+    | run f m => exact absurd ⟨f, m, (verdict_run_iff _ c f m).mp hv⟩ hno
     | builtin x => rfl
     | unknownObject => rfl
     | unknownMethod => rfl
@@ -146,67 +161,137 @@ theorem runs_iff (env : Env V) (ex : Exports) (hwf : NamedIfaces ex) (ops : List
     | unbound m => rfl
   · constructor
     · intro h
-      cases hv : verdict ex c with
-      | run f m => exact ⟨f, m, (verdict_run_iff ex c f m).mp hv⟩
+      cases hv : verdict (exportsAt ex ops k) c with
+      | run f m => exact ⟨f, m, (verdict_run_iff _ c f m).mp hv⟩
       | builtin x => simp [hv, expectedInvocations] at h
       | unknownObject => simp [hv, expectedInvocations] at h
       | unknownMethod => simp [hv, expectedInvocations] at h
       | invalidArgs m => simp [hv, expectedInvocations] at h
       | unbound m => simp [hv, expectedInvocations] at h
     · rintro ⟨f, m, hr⟩
-      rw [(verdict_run_iff ex c f m).mpr hr]
+      rw [(verdict_run_iff _ c f m).mpr hr]
       simp [expectedInvocations]
 
 /-- When the lookup fails (and the call is not one the handler answers itself) the call produces
 exactly one event: the error reply of the first failing step - UnknownObject: the path is not
-exported; UnknownMethod: the member is not on the addressed (or any) interface; InvalidArgs: the
-signature differs from the declared one - with the code's text, and no user code runs. -/
-theorem lookup_failure_reply (env : Env V) (ex : Exports) (hwf : NamedIfaces ex) (ops : List (Op V))
+exported (at the time the call arrives); UnknownMethod: the member is not on the addressed (or
+any) interface; InvalidArgs: the signature differs from the declared one - carrying the call's
+serial and sender, and no user code runs.  (The texts are the source's, `unknownObjectErr` etc.;
+only the names are pinned here.) -/
+theorem lookup_failure_reply (env : Env V) (ex : Exports) (ops : List (Op V)) (hwf : HistoryNamed ex ops)
     (k : Nat) (c : Call V) (b : Nat → Outcome V) (hk : ops[k]? = some (.call c b))
-    (hh : handledByHandler ex c = false) :
-    (exported ex c.path = none →
-      eventsOf k (run env ex ops).2 =
-        [.sent (.err unknownObject.1 c.serial c.sender (pyFormat unknownObject.2 [c.path]))]) ∧
-    (∀ o, exported ex c.path = some o → addressed o c = none →
-      eventsOf k (run env ex ops).2 =
-        [.sent (.err unknownMethod.1 c.serial c.sender
-          (pyFormat unknownMethod.2 [c.member, orElse c.sig [], orElse c.iface "(null)".toList]))]) ∧
-    (∀ o i m, exported ex c.path = some o → addressed o c = some (i, m) → c.sig.getD [] ≠ m.sigIn →
-      eventsOf k (run env ex ops).2 =
-        [.sent (.err invalidArgs.1 c.serial c.sender
-          (pyFormat invalidArgs.2 [c.member, orElse c.sig [], m.sigIn]))]) := by
-  rw [eventsOf_run, callEvents_eq env ex hwf ops k c b hk]
+    (hh : handledByHandler (exportsAt ex ops k) c = false) :
+    (exported (exportsAt ex ops k) c.path = none →
+      eventsOf k (run env ex ops).2 = [unknownObjectErr c] ∧
+      ∃ text, (unknownObjectErr c : Event V) =
+        .sent (.err "org.freedesktop.DBus.Error.UnknownObject".toList c.serial c.sender text)) ∧
+    (∀ o, exported (exportsAt ex ops k) c.path = some o → addressed o c = none →
+      eventsOf k (run env ex ops).2 = [unknownMethodErr c] ∧
+      ∃ text, (unknownMethodErr c : Event V) =
+        .sent (.err "org.freedesktop.DBus.Error.UnknownMethod".toList c.serial c.sender text)) ∧
+    (∀ o i m, exported (exportsAt ex ops k) c.path = some o → addressed o c = some (i, m) →
+        c.sig.getD [] ≠ m.sigIn →
+      eventsOf k (run env ex ops).2 = [invalidArgsErr c m] ∧
+      ∃ text, (invalidArgsErr c m : Event V) =
+        .sent (.err "org.freedesktop.DBus.Error.InvalidArgs".toList c.serial c.sender text)) := by
+  rw [eventsOf_run, callEvents_eq env ex ops k (hwf k) c b hk]
+  have n1 : Gen.Dispatch.unknownObject.1 = "org.freedesktop.DBus.Error.UnknownObject" := by decide
+  have n2 : Gen.Dispatch.unknownMethod.1 = "org.freedesktop.DBus.Error.UnknownMethod" := by decide
+  have n3 : Gen.Dispatch.invalidArgs.1 = "org.freedesktop.DBus.Error.InvalidArgs" := by decide
   refine ⟨?_, ?_, ?_⟩
-  · intro ho; rw [verdict_unknownObject_of ex c hh ho]; rfl
-  · intro o ho ha; rw [verdict_unknownMethod_of ex c o hh ho ha]; rfl
-  · intro o i m ho ha hs; rw [verdict_invalidArgs_of ex c o i m hh ho ha hs]; rfl
+  · intro ho
+    rw [verdict_unknownObject_of _ c hh ho]
+    refine ⟨rfl, renderText c [] [] Gen.Dispatch.unknownObject.2, ?_⟩
+    simp only [unknownObjectErr, errEvent, sendErr, n1]
+  · intro o ho ha
+    rw [verdict_unknownMethod_of _ c o hh ho ha]
+    refine ⟨rfl, renderText c [] [] Gen.Dispatch.unknownMethod.2, ?_⟩
+    simp only [unknownMethodErr, errEvent, sendErr, n2]
+  · intro o i m ho ha hs
+    rw [verdict_invalidArgs_of _ c o i m hh ho ha hs]
+    refine ⟨rfl, renderText c m.sigIn [] Gen.Dispatch.invalidArgs.2, ?_⟩
+    simp only [invalidArgsErr, errEvent, sendErr, n3]
+
+/-- THE CASE THE STATEMENT'S "IF AND ONLY IF" DOES NOT NAME.  Read literally the statement says:
+user code runs iff (path exported, member on the interface, signature equal), otherwise the
+reply is UnknownObject / UnknownMethod / InvalidArgs.  `runs_iff` above proves this modulo "an
+implementation is bound" (`Runnable` carries `bound ... = some f`): when the interface declares
+the member and NOTHING implements it (`bound ... = none`), all three conditions hold, yet no
+user code can run and none of the three named errors applies.  What happens then, for every
+history: no user code runs, and a call that expects a reply gets exactly one error reply whose
+name is formed from the exception `executeMethod` raises, `NotImplementedError`, by the ordinary
+naming rule (`org.txdbus.PythonException.NotImplementedError` when the validator accepts that
+name), with an empty text (as `send_error` sends it); a no-reply call gets nothing. -/
+theorem unbound_reply (env : Env V) (ht : TextTotal env) (ex : Exports) (ops : List (Op V))
+    (hwf : HistoryNamed ex ops) (k : Nat) (c : Call V) (b : Nat → Outcome V)
+    (hk : ops[k]? = some (.call c b))
+    (hh : handledByHandler (exportsAt ex ops k) c = false)
+    (o : Obj) (i : Iface) (m : Method)
+    (ho : exported (exportsAt ex ops k) c.path = some o) (ha : addressed o c = some (i, m))
+    (hs : c.sig.getD [] = m.sigIn) (hb : bound o i.name c.member = none) :
+    invocations (eventsOf k (run env ex ops).2) = [] ∧
+    (c.expectReply = false → eventsOf k (run env ex ops).2 = []) ∧
+    (c.expectReply = true → ∃ t, env.textFix (errorText env.validErr notImplemented) = some t ∧
+      eventsOf k (run env ex ops).2 =
+        [.sent (.err (errorName env.validErr notImplemented) c.serial c.sender t)]) ∧
+    (env.validErr (pyExceptionPrefix ++ "NotImplementedError".toList) = true →
+      errorName env.validErr notImplemented =
+        "org.txdbus.PythonException.NotImplementedError".toList) := by
+  have hv : verdict (exportsAt ex ops k) c = .unbound m := by
+    simp only [handledByHandler, ho, Option.isSome_some, Bool.true_and, Bool.or_eq_false_iff] at hh
+    obtain ⟨⟨h1, h2⟩, h3⟩ := hh
+    unfold verdict
+    simp [h1, h2, h3, ho, ha, hs, hb]
+  have hce := callEvents_eq env ex ops k (hwf k) c b hk
+  rw [hv] at hce
+  simp only [callInv, callReplies, expectedCall, laterEvents, callPending, List.nil_append,
+    List.append_nil] at hce
+  rw [eventsOf_run, hce]
+  refine ⟨?_, ?_, ?_, ?_⟩
+  · cases c.expectReply with
+    | false => rfl
+    | true => simpa using (sendError_replyish env (pendingOf k c m) notImplemented).invocations
+  · intro he; simp [he]
+  · intro he
+    simp only [he, if_true, sendError_eq]
+    have := ht (errorText env.validErr notImplemented)
+    cases h : env.textFix (errorText env.validErr notImplemented) with
+    | none => simp [h] at this
+    | some t => exact ⟨t, rfl, rfl⟩
+  · intro hval
+    have hn : Gen.Dispatch.unboundException = "NotImplementedError" := by decide
+    have hp : pyExceptionPrefix = "org.txdbus.PythonException.".toList := by decide
+    unfold errorName notImplemented
+    simp only [hn]
+    rw [if_pos hval, hp]
+    decide
 
 /-! ## 4. Results -/
 
 /-- A returned value - now, or as the eventual result of the returned Deferred - that encodes
 under the declared return signature is sent as a method return under that signature. -/
-theorem result_encoding (env : Env V) (ex : Exports) (hwf : NamedIfaces ex) (ops : List (Op V))
+theorem result_encoding (env : Env V) (ex : Exports) (ops : List (Op V)) (hwf : HistoryNamed ex ops)
     (k : Nat) (c : Call V) (b : Nat → Outcome V) (hk : ops[k]? = some (.call c b))
-    (he : c.expectReply = true) (f : Func) (m : Method) (hv : verdict ex c = .run f m)
+    (he : c.expectReply = true) (f : Func) (m : Method) (hv : verdict (exportsAt ex ops k) c = .run f m)
     (r : Ret V) (hres : resultOf ops k (b f.id) = some (.value r))
     (henc : env.encErr m.sigOut (replyBody env.ofSeq m.nret r) = none) :
     replies (eventsOf k (run env ex ops).2) =
       [.ret c.serial c.sender (some m.sigOut) (.vals (replyBody env.ofSeq m.nret r))] := by
-  rw [eventsOf_run, replies_run env ex hwf ops k c b hk f m hv he, hres]
+  rw [eventsOf_run, replies_run env ex ops k (hwf k) c b hk f m hv he, hres]
   simp only [fire, sendReply_eq, pendingOf, henc]
   simp [replies]
 
 /-- A value that does not encode under the declared signature becomes exactly one error reply,
 named after the encoder's exception by the same rule as any other exception. -/
 theorem unencodable_value_one_error (env : Env V) (ht : TextTotal env) (ex : Exports)
-    (hwf : NamedIfaces ex) (ops : List (Op V))
+    (ops : List (Op V)) (hwf : HistoryNamed ex ops)
     (k : Nat) (c : Call V) (b : Nat → Outcome V) (hk : ops[k]? = some (.call c b))
-    (he : c.expectReply = true) (f : Func) (m : Method) (hv : verdict ex c = .run f m)
+    (he : c.expectReply = true) (f : Func) (m : Method) (hv : verdict (exportsAt ex ops k) c = .run f m)
     (r : Ret V) (hres : resultOf ops k (b f.id) = some (.value r))
     (e : Exc) (henc : env.encErr m.sigOut (replyBody env.ofSeq m.nret r) = some e) :
     ∃ t, replies (eventsOf k (run env ex ops).2) =
       [.err (errorName env.validErr e) c.serial c.sender t] := by
-  rw [eventsOf_run, replies_run env ex hwf ops k c b hk f m hv he, hres]
+  rw [eventsOf_run, replies_run env ex ops k (hwf k) c b hk f m hv he, hres]
   simp only [fire, sendReply_eq, pendingOf, henc, sendError_eq]
   have := ht (errorText env.validErr e)
   cases h : env.textFix (errorText env.validErr e) with
@@ -220,16 +305,16 @@ preceded by a notice when the name was rejected) as `send_error` can send it; fo
 code and a name that is valid the message is the exception text itself whenever it contains no
 NUL. -/
 theorem error_reply_name (env : Env V) (ht : TextTotal env) (ex : Exports)
-    (hwf : NamedIfaces ex) (ops : List (Op V))
+    (ops : List (Op V)) (hwf : HistoryNamed ex ops)
     (k : Nat) (c : Call V) (b : Nat → Outcome V) (hk : ops[k]? = some (.call c b))
-    (he : c.expectReply = true) (f : Func) (m : Method) (hv : verdict ex c = .run f m)
+    (he : c.expectReply = true) (f : Func) (m : Method) (hv : verdict (exportsAt ex ops k) c = .run f m)
     (e : Exc) (hres : resultOf ops k (b f.id) = some (.fail e)) :
     ∃ t, env.textFix (errorText env.validErr e) = some t ∧
       replies (eventsOf k (run env ex ops).2) =
         [.err (errorName env.validErr e) c.serial c.sender t] ∧
       (env.textFix = fixRepaired → errorName env.validErr e ≠ invalidErrorName →
         '\x00' ∉ e.text → t = e.text) := by
-  rw [eventsOf_run, replies_run env ex hwf ops k c b hk f m hv he, hres]
+  rw [eventsOf_run, replies_run env ex ops k (hwf k) c b hk f m hv he, hres]
   simp only [fire, pendingOf, sendError_eq]
   have := ht (errorText env.validErr e)
   cases h : env.textFix (errorText env.validErr e) with
@@ -259,22 +344,46 @@ theorem error_reply_name (env : Env V) (ht : TextTotal env) (ex : Exports)
 /-- The generated tables (translated from txdbus/objects.py on every run) have the shape and the
 values the model and the statement assume: editing them in the source breaks this lemma. -/
 theorem table_shape :
-    Gen.Dispatch.builtinPairs =
-      [("org.freedesktop.DBus.Peer", "Ping"),
-       ("org.freedesktop.DBus.Introspectable", "Introspect"),
-       ("org.freedesktop.DBus.ObjectManager", "GetManagedObjects")] ∧
-    Gen.Dispatch.lookupErrors.map (fun e => (e.1, e.2.2)) =
-      [("org.freedesktop.DBus.Error.UnknownObject", ["msg.path"]),
-       ("org.freedesktop.DBus.Error.Failed", ["e"]),
-       ("org.freedesktop.DBus.Error.UnknownMethod",
-          ["msg.member", "msg.signature or ''", "msg.interface or '(null)'"]),
-       ("org.freedesktop.DBus.Error.InvalidArgs",
-          ["msg.member", "msg.signature or ''", "m.sigIn or ''"])] ∧
+    Gen.Dispatch.peerPair = ("org.freedesktop.DBus.Peer", "Ping") ∧
+    Gen.Dispatch.introspectPair = ("org.freedesktop.DBus.Introspectable", "Introspect") ∧
+    Gen.Dispatch.managedPair = ("org.freedesktop.DBus.ObjectManager", "GetManagedObjects") ∧
+    Gen.Dispatch.unknownObject.1 = "org.freedesktop.DBus.Error.UnknownObject" ∧
+    Gen.Dispatch.unknownMethod.1 = "org.freedesktop.DBus.Error.UnknownMethod" ∧
+    Gen.Dispatch.invalidArgs.1 = "org.freedesktop.DBus.Error.InvalidArgs" ∧
     Gen.Dispatch.pyExceptionPrefix = "org.txdbus.PythonException." ∧
     Gen.Dispatch.invalidErrorName = "org.txdbus.InvalidErrorName" ∧
-    Gen.Dispatch.attrPrefix = "dbus_" ∧
-    Gen.Dispatch.callerKeyword = "dbusCaller" := by
+    Gen.Dispatch.unboundException = "NotImplementedError" ∧
+    Gen.Dispatch.attrPrefix = "dbus_" := by
   decide
+
+/-- "The caller's unique name when it asks for it": a method asks for it iff its positional
+parameter list (`self` included, as `inspect.getfullargspec` of the bound method gives it) ends
+in a parameter named `dbusCaller` - the rule of `_set_method_flags` with the keyword and the
+minimum length taken from the source. -/
+theorem asks_for_caller_iff (f : Func) :
+    f.wantsCaller = true ↔ f.params.getLast? = some "dbusCaller".toList := by
+  have h1 : Gen.Dispatch.callerMinArgs = 1 := by decide
+  have h2 : callerKeyword = "dbusCaller".toList := by decide
+  unfold Func.wantsCaller needsCaller
+  rw [h1, h2]
+  constructor
+  · intro h
+    simp only [Bool.and_eq_true, beq_iff_eq] at h
+    exact h.2
+  · intro h
+    simp only [Bool.and_eq_true, beq_iff_eq, decide_eq_true_eq]
+    refine ⟨?_, h⟩
+    cases hp : f.params with
+    | nil => simp [hp] at h
+    | cons a t => simp
+
+/-- The `send_error` of the source under test (`fixSource`, read off the generated table) is the
+repaired one: its text escape is total, so `TextTotal` holds for the environment the driver
+runs.  Reverting repair C10-01 in the source changes the table and this theorem stops checking. -/
+theorem source_send_error_total (env : Env V) (h : env.textFix = fixSource) : TextTotal env := by
+  intro t
+  rw [h, fixSource_eq_repaired]
+  rfl
 
 /-! ## 6. Witness: the code before repair C10-01 (F29) -/
 
@@ -286,9 +395,14 @@ def iface : Iface :=
 
 def cls : Class :=
   { ifaces := some [iface],
-    attrs := [("dbus_one".toList, { id := 1, deco := none, wantsCaller := true })] }
+    attrs := [("dbus_one".toList, { id := 1, deco := none, params := ["self".toList, "dbusCaller".toList] })] }
 
 def exports : Exports := [("/a".toList, { classes := [cls] })]
+
+/-- the same object with a second declared member `two` that nothing implements -/
+def exports2 : Exports :=
+  [("/a".toList, { classes := [{ cls with ifaces := some [{ iface with methods := iface.methods ++
+      [("two".toList, { name := "two".toList, sigIn := [], sigOut := [], nret := 0 })] }] }] })]
 
 def call : Call Nat :=
   { path := "/a".toList, iface := some "org.a".toList, member := "one".toList, sig := none,
@@ -319,9 +433,45 @@ theorem prefix_model_violates_exactly_one :
       [.err "org.txdbus.PythonException.Exception".toList 5 (some ":1.7".toList) "a\\x00b".toList] := by
   decide
 
+/-- Witness for `unbound_reply` (decide): the interface declares `two`, nothing implements it;
+the call matches path, member and signature, no user code runs and the one reply is
+`org.txdbus.PythonException.NotImplementedError`. -/
+theorem unbound_witness :
+    (run (Example.envWith fixRepaired) Example.exports2
+        [.call { Example.call with member := "two".toList } Example.raisesNul]).2 =
+      [(0, .sent (.err "org.txdbus.PythonException.NotImplementedError".toList 5
+                    (some ":1.7".toList) []))] := by
+  decide
+
+/-- Witness for histories with export / unexport (decide): the same call runs user code while
+`/a` is exported, is answered UnknownObject after `unexportObject('/a')`, and runs again after
+the object is exported again. -/
+theorem unexport_witness :
+    (run (Example.envWith fixRepaired) Example.exports
+        [.call Example.call (fun _ => .deferred), .unexportObj "/a".toList,
+         .call Example.call (fun _ => .deferred), .exportObj "/a".toList { classes := [Example.cls] },
+         .call Example.call (fun _ => .deferred)] |>.2).map
+      (fun e => match e.2 with
+        | .invoked f _ _ => (e.1, some f, ([] : Str))
+        | .sent (.err n _ _ _) => (e.1, none, n)
+        | .sent (.ret _ _ _ _) => (e.1, none, [])) =
+      [(0, some 1, []), (2, none, "org.freedesktop.DBus.Error.UnknownObject".toList), (4, some 1, [])] := by
+  decide
+
 /-! ## 7. The hypotheses are satisfiable -/
 
 example : NamedIfaces Example.exports := by unfold NamedIfaces; decide
+
+example : HistoryNamed Example.exports
+    [.call Example.call Example.raisesNul, .unexportObj "/a".toList,
+     .exportObj "/a".toList { classes := [Example.cls] }, .resolve 0 (.fail ⟨[], none, []⟩)] := by
+  apply historyNamed_of
+  · unfold NamedIfaces; decide
+  · intro path o h
+    simp at h
+    obtain ⟨_, h⟩ := h
+    subst h
+    decide
 
 example : TextTotal (Example.envWith fixRepaired) := fun _ => rfl
 
@@ -330,7 +480,7 @@ example : ¬ TextTotal (Example.envWith fixPrefix) := fun h => by
   simp [Example.envWith, fixPrefix] at this
 
 example : ∃ f m, Runnable Example.exports Example.call f m :=
-  ⟨{ id := 1, deco := none, wantsCaller := true },
+  ⟨{ id := 1, deco := none, params := ["self".toList, "dbusCaller".toList] },
    { name := "one".toList, sigIn := [], sigOut := ['s'], nret := 1 },
    (verdict_run_iff _ _ _ _).mp (by decide)⟩
 
@@ -347,6 +497,11 @@ end Txdbus.Obj
 #print axioms Txdbus.Obj.reply_addressing
 #print axioms Txdbus.Obj.runs_iff
 #print axioms Txdbus.Obj.lookup_failure_reply
+#print axioms Txdbus.Obj.unbound_reply
+#print axioms Txdbus.Obj.asks_for_caller_iff
+#print axioms Txdbus.Obj.source_send_error_total
+#print axioms Txdbus.Obj.unbound_witness
+#print axioms Txdbus.Obj.unexport_witness
 #print axioms Txdbus.Obj.result_encoding
 #print axioms Txdbus.Obj.unencodable_value_one_error
 #print axioms Txdbus.Obj.error_reply_name
